@@ -97,6 +97,8 @@ def tasks(tier):
         for nested in (False, True):
             for fails in (False, True):
                 out.append({"others": others, "nested": nested, "fails": fails, "same_payload": False})
+    out.append({"kind": "burst", "engine": "sync"})
+    out.append({"kind": "burst", "engine": "async"})
     out.append({"others": 1, "nested": False, "fails": False, "same_payload": True})
     out.append({"others": 2 if tier != "quick" else 1, "nested": True, "fails": False, "same_payload": True})
     return out
@@ -110,6 +112,12 @@ OBLIGATIONS = []
 
 
 def run(ctx, params):
+    if params.get("kind") == "burst":
+        # the transition system gives the queue as many slots as the configuration can fill: "append never drops" is an
+        # assumption of the encoding, validated here against the real engine (concrete run)
+        from harness.eng_common import burst_check
+
+        return burst_check(ctx, params["engine"], "C06")
     from statemachine import State, StateMachine
 
     with ctx.notracing():
